@@ -11,16 +11,16 @@ namespace Theo
     routine it is executed in: the call graph is acyclic -/
 theorem C16_calls_go_down (p : Program) (c : Cert) (h : checkCert p c = true)
     (pc : Nat) (I : PcInfo) (e : Int) (hi : c.info pc = some I) (hx : p.code[pc]? = some (Instr.exec e)) :
-    ∃ cf j, I.pend = some (cf, j) ∧ j < I.rid ∧ c.info e = some ⟨cf, j, none⟩ := by
-  sorry
+    ∃ cf j, I.pend = some (cf, j) ∧ j < I.rid ∧ c.info e = some ⟨cf, j, none⟩ :=
+  WF.calls_go_down h hi hx
 
 /-- the activation stack never grows beyond the number of routines plus one (the root) -/
 theorem C16_stack_bounded (p : Program) (c : Cert) (h : checkCert p c = true)
-    (vm : VM) (hr : Reach p vm) : vm.stack.length ≤ numRoutines p + 1 := by
-  sorry
+    (vm : VM) (hr : Reach p vm) : vm.stack.length ≤ numRoutines p + 1 :=
+  WF.stack_bounded h hr
 
 theorem C16_stack_bounded_wf (p : Program) (h : wfCheck p = true)
-    (vm : VM) (hr : Reach p vm) : vm.stack.length ≤ numRoutines p + 1 := by
-  sorry
+    (vm : VM) (hr : Reach p vm) : vm.stack.length ≤ numRoutines p + 1 :=
+  WF.stack_bounded (c := inferCert p) h hr
 
 end Theo
